@@ -287,8 +287,10 @@ impl Prop for C06 {
 	}
 
 	fn enumerate(_tier: Tier, shard: usize, nshards: usize, f: &mut dyn FnMut(Case, bool) -> bool) -> Vec<&'static str> {
-		// scheme, authority and first-segment LENGTHS: every length 0..=600 and the usual limits up to 70 000
-		for (i, n) in gen::sweep_lengths(600, 70_000).into_iter().enumerate() {
+		// scheme, authority and first-segment LENGTHS: every length 0..=600, every 97th up to 9 000 and the usual limits up to 70 000
+		let mut lens = gen::sweep_lengths(600, 9_000);
+		lens.extend([16_383, 16_384, 16_385, 32_767, 32_768, 32_769, 65_533, 65_534, 65_535, 65_536, 65_537, 70_000]);
+		for (i, n) in lens.into_iter().enumerate() {
 			if i % nshards != shard {
 				continue;
 			}
